@@ -1,5 +1,5 @@
 import ZarrsModel.Lemmas.ShardPEFrame
-/- helper lemmas for C05, part 4: the two branches of `partialEncode` and the main statements -/
+/- helper lemmas for C05, part 4: the two branches of `partialEncodePinned` and the main statements -/
 namespace Zarrs.ShardPE
 open Zarrs Zarrs.Codec Zarrs.Shard
 
@@ -105,7 +105,7 @@ theorem partialEncode_dead (c : Cfg) (vo : Option Bytes) (idx : List (Nat × Nat
     (hu : (∀ u ∈ us, u.1 < c.nChunks) ∧ (us.map (·.1)).Nodup)
     (hs : indexSize c + (dataNew us).length < sentinel)
     (hdead : (idxDead idx us).all (fun e => !isLive e) = true) :
-    Outcome c chunks us True (partialEncode c vo us) := by
+    Outcome c chunks us True (partialEncodePinned c vo us) := by
   have hr : ∀ u ∈ us, u.1 < idx.length := fun u h => by rw [hlen]; exact hu.1 u h
   have hnk := not_kept_of_dead idx us hdead
   rw [partialEncode_eq c vo us idx hcur]
@@ -134,7 +134,7 @@ theorem partialEncode_dead (c : Cfg) (vo : Option Bytes) (idx : List (Nat × Nat
 theorem partialEncode_absent (c : Cfg) (us : List (Nat × Option Bytes))
     (hu : (∀ u ∈ us, u.1 < c.nChunks) ∧ (us.map (·.1)).Nodup)
     (hsmall : ((us.filterMap (·.2)).map List.length).sum + indexSize c < sentinel) :
-    Outcome c (List.replicate c.nChunks none) us True (partialEncode c none us) := by
+    Outcome c (List.replicate c.nChunks none) us True (partialEncodePinned c none us) := by
   have hall : ∀ (j : Nat) (e : Nat × Nat),
       (List.replicate c.nChunks ((sentinel, sentinel) : Nat × Nat))[j]? = some e → e = (sentinel, sentinel) := by
     intro j e h
@@ -186,7 +186,7 @@ theorem partialEncode_wellformed (c : Cfg) (v : Bytes) (chunks : List (Option By
     (us : List (Nat × Option Bytes))
     (hu : (∀ u ∈ us, u.1 < c.nChunks) ∧ (us.map (·.1)).Nodup)
     (hsmall : v.length + ((us.filterMap (·.2)).map List.length).sum + indexSize c < sentinel) :
-    Outcome c chunks us (Grow c v us) (partialEncode c (some v) us) := by
+    Outcome c chunks us (Grow c v us) (partialEncodePinned c (some v) us) := by
   obtain ⟨idx, hcur, hlen, hold, hb, hWF, hiv⟩ := old_facts c v chunks hdec hwf (by omega)
   have hdl := dataNew_length us
   have hr : ∀ u ∈ us, u.1 < idx.length := fun u h => by rw [hlen]; exact hu.1 u h
